@@ -224,6 +224,18 @@ def output_files(cr, exclude_inputs=True):
     return {p.name: p.read_bytes() for p in sorted(cr["dir"].iterdir()) if p.is_file() and not (exclude_inputs and p.name.startswith(INPUT_PREFIXES))}
 
 
+def inflate_outputs(cr):
+    """Every output file of the run just made is made longer (its own content twice, and a comment line): what a
+    directory looks like that holds the outputs of an earlier, larger curation under the same names."""
+    n = 0
+    for name in output_files(cr):
+        p = cr["dir"] / name
+        b = p.read_bytes()
+        p.write_bytes(b + b + b"# left over from an earlier run\n")
+        n += 1
+    return n
+
+
 def clear_outputs(cr):
     for p in cr["dir"].iterdir():
         if p.is_file() and not p.is_symlink() and not p.name.startswith(INPUT_PREFIXES):
